@@ -51,8 +51,8 @@ def is_q(k):
 
 class KindExec:
     def __init__(self, fn: ast.FunctionDef, kinds: Dict[str, object], qb_class="QBytesTensor", helpers: Optional[dict] = None):
-        from .core import canon_function
-        self.fn, self.kinds, self.qb_class, self.helpers = canon_function(fn), kinds, qb_class, helpers or {}
+        from .core import canon_function_inlined
+        self.fn, self.kinds, self.qb_class, self.helpers = canon_function_inlined(fn, helpers), kinds, qb_class, helpers or {}
         self.paths: List[list] = []
 
     def _helper_fn(self, name, env):
